@@ -23,6 +23,9 @@ CHECKS = {
  "C15": dict(cat="model_checking", eng="e1", tech="exhaustive enumeration of prefix states x net-zero cycles x repetitions on the real code; oracle on backing-file length",
    text="For every prefix state (fill-level seeds around whole-sector multiples of the mini stream, MiniFAT and FAT, crossed with all prefix op sequences) and every cycle of a fixed list (create+write+remove for each boundary size, overwrite there-and-back, grow/shrink, storage create/remove, recursive create/remove, five entries), the cycle is run three times live and with a reopen between repetitions; the model confirms the logical state returned; the file length must be the same after repetitions 1, 2 and 3.",
    note="The first repetition may grow the file; only growth from the second repetition on is a violation. Trusted: reference model for net-zero confirmation.", ref="4 E1 (C15)"),
+ "C06": dict(cat="model_checking", eng="e3", tech="exhaustive enumeration of all handle call sequences up to depth 3-4 x configurations on the real Stream, against a Vec<u8>+cursor model",
+   text="Every sequence (depth 3 quick, 3-4 thorough) over 38-67 handle calls - read, fill_buf/consume, write, seek Start/End/Current with targets at 0, the buffer capacity, the length (each +-1) and the i64/u64 extremes, set_len, flush, position, len - is run for every configuration of max_buffer_size (below the minimum, 1024, non-power-of-two, 1 MiB), version and initial length; every call is compared with a byte vector and cursor, refused seeks must leave the position unchanged, and a fresh handle reads everything back, including two neighbouring streams.",
+   note="The model accepts any legal short count. Overflow checks are on in the build, so an arithmetic overflow is a panic. Sequences longer than the depth are not covered.", ref="4 E3"),
 }
 
 NOT_YET = {
@@ -57,6 +60,7 @@ def main():
             "add_only": True,
         },
         "engines": [
+            {"name": "e3", "path": "/verif/harness/src/e3.rs", "serves_properties": ["C06"], "kind_free_text": "exhaustive call-sequence enumeration on one stream handle"},
             {"name": "e1", "path": "/verif/harness/src/e1.rs", "serves_properties": ["C01", "C02", "C03", "C08", "C10", "C15"], "kind_free_text": "explicit-state BFS over byte images + exhaustive op-sequence enumeration on the real code"},
         ],
         "checks": checks,
